@@ -617,3 +617,142 @@ VH_TARGET(span_threads, 6,
   c.nontrivial = active >= 2;
   finish_and_check(c, s, st, m, true);
 }
+
+// ================================================================================================
+// End racing the writers (engine E-THR, no schedule ownership: brute force over rounds).
+// 1..2 writer threads perform stamped operations in a tight loop while 1..2 threads call End once
+// the writers' progress reaches a generated point.  Oracle (logical stamps from one atomic clock):
+//   * an operation that RETURNED before the first End call BEGAN is in the exported span,
+//   * an operation that BEGAN after an End call had RETURNED is not,
+//   * operations overlapping End may go either way,
+//   * exactly one span per processor, whatever the number of End callers; no crash (ASan/TSan).
+VH_TARGET(span_end_race, 4,
+          "writers race End on one span; non-trivial when at least one operation overlapped an End call "
+          "by logical stamps in some round; distinct = distinct program text")
+{
+  vh::Reader &rd = c.rd;
+  unsigned nw     = 1 + rd.below(2);
+  unsigned nend   = 1 + rd.below(2);
+  unsigned rounds = 6 + rd.below(10);
+  struct WOp
+  {
+    int kind;  // 0 attr, 1 event, 2 status, 3 name
+  };
+  std::vector<std::vector<WOp>> progs(nw);
+  unsigned total = 0;
+  std::string desc = "writers:";
+  for (unsigned w = 0; w < nw; ++w)
+  {
+    unsigned n = 3 + rd.below(10);
+    desc += " [";
+    for (unsigned i = 0; i < n; ++i)
+    {
+      int k = static_cast<int>(rd.weighted({5, 3, 2, 1}));
+      progs[w].push_back(WOp{k});
+      desc += "AESN"[k];
+    }
+    desc += "]";
+    total += n;
+  }
+  unsigned fire_at = rd.below(total + 1);
+  c.note(desc + " enders=" + std::to_string(nend) + " end-when-progress>=" + std::to_string(fire_at) + " rounds=" +
+         std::to_string(rounds) + "\n");
+  bool overlapped = false;
+  for (unsigned round = 0; round < rounds; ++round)
+  {
+    // fresh provider per round (simple processor: Export happens inside End)
+    auto sink = std::make_shared<Sink>();
+    std::unique_ptr<sdkt::SpanProcessor> proc(
+        new sdkt::SimpleSpanProcessor(std::unique_ptr<sdkt::SpanExporter>(new CaptureExporter(sink))));
+    auto provider = std::make_shared<sdkt::TracerProvider>(std::move(proc));
+    auto tracer   = provider->GetTracer("race");
+    auto span     = tracer->StartSpan("start-name");
+    std::atomic<uint64_t> clock{1};
+    std::atomic<unsigned> progress{0};
+    struct Stamp
+    {
+      uint64_t call = 0, ret = 0;
+    };
+    std::vector<std::vector<Stamp>> wst(nw);
+    std::vector<Stamp> est(nend);
+    std::vector<std::thread> ths;
+    for (unsigned w = 0; w < nw; ++w)
+    {
+      wst[w].resize(progs[w].size());
+      ths.emplace_back([&, w]() {
+        for (size_t i = 0; i < progs[w].size(); ++i)
+        {
+          std::string id = "w" + std::to_string(w) + "." + std::to_string(i);
+          wst[w][i].call = clock.fetch_add(1);
+          switch (progs[w][i].kind)
+          {
+            case 0:
+              span->SetAttribute(id, static_cast<int64_t>(i));
+              break;
+            case 1:
+              span->AddEvent(id);
+              break;
+            case 2:
+              span->SetStatus(tr::StatusCode::kError, id);
+              break;
+            default:
+              span->UpdateName(id);
+              break;
+          }
+          wst[w][i].ret = clock.fetch_add(1);
+          progress.fetch_add(1);
+        }
+      });
+    }
+    for (unsigned e = 0; e < nend; ++e)
+      ths.emplace_back([&, e]() {
+        while (progress.load() < fire_at)
+          std::this_thread::yield();
+        est[e].call = clock.fetch_add(1);
+        span->End();
+        est[e].ret = clock.fetch_add(1);
+      });
+    for (auto &t : ths)
+      t.join();
+    span = otel::nostd::shared_ptr<tr::Span>(nullptr);
+    uint64_t first_end_call = UINT64_MAX, first_end_ret = UINT64_MAX;
+    for (auto &e : est)
+    {
+      first_end_call = std::min(first_end_call, e.call);
+      first_end_ret  = std::min(first_end_ret, e.ret);
+    }
+    std::lock_guard<std::mutex> g(sink->mu);
+    VH_CHECK(c, sink->spans.size() == 1, "round " << round << ": " << nend << " End caller(s) produced "
+                                                   << sink->spans.size() << " exported spans");
+    const Captured &got = sink->spans[0];
+    for (unsigned w = 0; w < nw; ++w)
+      for (size_t i = 0; i < progs[w].size(); ++i)
+      {
+        std::string id  = "w" + std::to_string(w) + "." + std::to_string(i);
+        bool before     = wst[w][i].ret < first_end_call;
+        bool after      = wst[w][i].call > first_end_ret;
+        if (!before && !after)
+          overlapped = true;
+        bool present = false;
+        if (progs[w][i].kind == 0)
+          present = got.attrs.count(id) != 0;
+        else if (progs[w][i].kind == 1)
+        {
+          for (auto &ev : got.events)
+            present = present || ev.name == id;
+        }
+        else
+          continue;  // name / status: last-writer semantics under a race are not asserted
+        if (before)
+          VH_CHECK(c, present, "round " << round << ": operation " << id << " returned before End began but is "
+                                        << "missing from the exported span");
+        if (after)
+          VH_CHECK(c, !present, "round " << round << ": operation " << id << " began after End had returned but "
+                                         << "is in the exported span");
+      }
+  }
+  if (overlapped)
+    c.tag("op-overlapped-end");
+  c.tag("enders-" + std::to_string(nend));
+  c.nontrivial = overlapped;
+}
